@@ -255,6 +255,14 @@ def run_doc(case):
     res = {"shapes": shapes, "custom": custom, "d1": d1, "q1": q_of_docs(base, doc)}
     if "ok" in d1:
         res["keys"] = list(d1raw.keys())
+        # the nested writers: log source and correlation section (keys written, in order)
+        if hasattr(obj, "logsource"):
+            ls = obj.logsource
+            res["sub"] = {"shapes": [shape(getattr(ls, f)) for f in ("category", "product", "service", "definition")],
+                          "custom": list((ls.custom_attributes or {}).keys()), "flag": False,
+                          "keys": list(d1raw["logsource"].keys())}
+        else:
+            res["sub"] = {"shapes": [], "custom": [], "flag": bool(obj.generate), "keys": list(d1raw["correlation"].keys())}
         res["d2"] = outcome(lambda: cls.from_dict(copy.deepcopy(d1raw)).to_dict())
         res["q2"] = q_of_docs(base, d1raw)
         def viayaml():
